@@ -124,15 +124,21 @@ pub fn builtin_exp(x: f64) -> f64 {
 	x.exp()
 }
 
+/// Exact decomposition `s = mantissa * 2^exponent` with `0.5 <= |mantissa| < 1`, as libm `frexp` does it.
+/// (Computing it through `log2`/`exp2` is off by several ulps, and off by one exponent just below powers of two)
 fn frexp(s: f64) -> (f64, i16) {
-	if s == 0.0 {
-		(s, 0)
-	} else {
-		let lg = s.abs().log2();
-		let x = (lg - lg.floor() - 1.0).exp2();
-		let exp = lg.floor() + 1.0;
-		(s.signum() * x, exp as i16)
+	const EXP_MASK: u64 = 0x7ff << 52;
+	if s == 0.0 || !s.is_finite() {
+		return (s, 0);
 	}
+	let bits = s.to_bits();
+	let exp = ((bits & EXP_MASK) >> 52) as i16;
+	if exp == 0 {
+		// Subnormal, scale to the normal range first: 2^64
+		let (m, e) = frexp(s * 18_446_744_073_709_551_616.0);
+		return (m, e - 64);
+	}
+	(f64::from_bits((bits & !EXP_MASK) | (1022 << 52)), exp - 1022)
 }
 
 #[builtin]
